@@ -4,8 +4,83 @@
    line-level interleaving semantics lts_step and a sequential reading sq_step), specification:
    C16/Spec.v.  code_now = the code in /repo (commit 7b727b3), code_before_fix / code_pre1948 =
    the wrapper before that commit / before the issue-1948 handler. *)
-From PV Require Import C16.Spec C16.Proofs.
+From PV Require Import C16.Spec C16.Proofs Gen.C16_Tables.
 Local Open Scope nat_scope.
+
+(* ---- one thread: every history of enter / exit / nested enter / exception in the body / method
+   call / source change (new content, access denied, process gone), no bound on its length *)
+
+(* 1. inside a block every call answers what its source held when it was first read successfully
+   in that block, the block reads each of stat / status / smaps (and statm for memory_info) at
+   most once, after the outermost exit -- normal or by an exception -- calls read fresh data, and
+   nested blocks change nothing: the sequential reading of the code produces, call by call, the
+   answers and the per-call read counts of the specification's ghost machine (Spec.spec_run).
+   spec_run is None for histories outside the stated domain: ppid() while stat is unreadable or
+   the process is gone (its PID-reuse pre-check belongs to C01/C02), a source reappearing after
+   the process vanished, a single file of a live process vanishing. *)
+Theorem C16_block_first_read : forall f h rs,
+  spec_run f h = Some rs ->
+  map proj_res (rev (q_res (sq_run (sq_init f) h))) = rs.
+Proof. exact block_first_read. Qed.
+Print Assumptions C16_block_first_read.
+
+(* 2. stated on the model alone: once no block is open (after Exit, or after an exception unwound
+   every block) both _cache attributes are gone and a call reads the current content, one read *)
+Theorem C16_fresh_after : forall f h m,
+  let q := sq_run (sq_init f) h in
+  q_stk q = [] -> m <> Mppid ->
+  fptr (q_sh q) = None /\ pptr (q_sh q) = None /\
+  exists cn, sq_call m (q_sh q) = (q_sh q, cn, direct m (q_sh q)) /\ cn (m_src m) = 1.
+Proof. exact fresh_after. Qed.
+Print Assumptions C16_fresh_after.
+
+Theorem C16_raise_leaves_all_blocks : forall q, q_stk (sq_step q ORaise) = [].
+Proof. exact raise_leaves_all_blocks. Qed.
+Print Assumptions C16_raise_leaves_all_blocks.
+
+(* 3. entering again inside a block and leaving again: same dicts, same pointers, same sources,
+   same answers so far; only the recursion count of the lock moved *)
+Theorem C16_nested_noop : forall f h,
+  let q := sq_run (sq_init f) h in
+  q_stk q <> [] ->
+  let q' := sq_step (sq_step q OEnter) OExit in
+  q_stk q' = q_stk q /\ q_res q' = q_res q /\ same_core (q_sh q) (q_sh q') /\ srcs (q_sh q') = srcs (q_sh q)
+  /\ q_stk (sq_step q OEnter) = Nested :: q_stk q /\ same_core (q_sh q) (q_sh (sq_step q OEnter)).
+Proof. exact nested_noop. Qed.
+Print Assumptions C16_nested_noop.
+
+(* 4. as_dict: TypeError for a non-collection and ValueError for an unknown name with the state
+   untouched (nothing queried, no block entered); otherwise exactly one oneshot block around the
+   calls for the requested names (all valid names for None / an empty collection), the result has
+   exactly those keys, ad_value where AccessDenied / ZombieProcess occurred, and NoSuchProcess
+   propagates (the block is left on every path).  spec_ad_collect is the policy of the
+   specification; names whose method raises anything else (NotImplementedError ...) are outside. *)
+Theorem C16_as_dict_spec : forall valid resolve q,
+  as_dict valid resolve ANotColl q = (q, Exc TypeError) /\
+  (forall ns, names_valid valid (AColl ns) = false -> as_dict valid resolve (AColl ns) q = (q, Exc ValueError)) /\
+  (forall attrs q2 answers,
+     attrs <> ANotColl -> names_valid valid attrs = true ->
+     run_calls resolve (sq_enter q) (requested valid attrs) = (q2, answers) ->
+     (forall d, spec_ad_collect (requested valid attrs) answers = Val d ->
+                as_dict valid resolve attrs q = (sq_exit q2, Val d) /\ map fst d = requested valid attrs) /\
+     (spec_ad_collect (requested valid attrs) answers = Exc NoSuchProcess ->
+      exists k, as_dict valid resolve attrs q =
+                (sq_exit (sq_run (sq_enter q) (map (call_of resolve) (firstn k (requested valid attrs)))), Exc NoSuchProcess))).
+Proof. exact as_dict_spec. Qed.
+Print Assumptions C16_as_dict_spec.
+
+(* ... against the table of attribute names dumped from the code on every run (coq/Gen/C16_Tables.v):
+   the modelled names are accepted, the action / navigation methods are rejected with ValueError
+   before anything is queried, and the table has no duplicates *)
+Theorem C16_attrnames_table :
+  forallb (fun n => mem_bytes n as_dict_attrnames) modelled_names = true /\
+  forallb (fun n => negb (mem_bytes n as_dict_attrnames)) excluded_names = true /\
+  nodup_bytes as_dict_attrnames = true /\
+  (forall n, In n modelled_names -> names_valid as_dict_attrnames (AColl [n]) = true) /\
+  (forall n resolve q, In n excluded_names ->
+     as_dict as_dict_attrnames resolve (AColl [n]) q = (q, Exc ValueError)).
+Proof. exact attrnames_table. Qed.
+Print Assumptions C16_attrnames_table.
 
 (* ---- threads: every interleaving (any schedule, any length), any number of threads, any programs *)
 
@@ -33,6 +108,18 @@ Theorem C16_cache_values_from_block : forall f progs c cid C k v,
   c_born C <= snd v /\ snd v <= clock (c_sh c).
 Proof. exact cache_values_from_block. Qed.
 Print Assumptions C16_cache_values_from_block.
+
+(* 6. a value returned by a call was read by that call itself, or was found in a cache dict the
+   call reached through the live pointer and was read after that dict was created -- inside the
+   block that overlapped the call, never before it (r_t0 = step at which the call started, snd v =
+   step at which the value was read, r_hit = the dict that supplied it) *)
+Theorem C16_plain_caller_valid : forall f progs c th r v,
+  reach code_now (init_cfg f progs) c -> In th (c_ths c) -> In r (t_res th) -> r_out r = Val v ->
+  r_t0 r <= snd v \/
+  exists cid C k, r_hit r = Some cid /\ nth_error (heap (c_sh c)) cid = Some C /\ In (k, v) (c_ents C) /\
+                  c_born C <= snd v.
+Proof. exact plain_caller_valid. Qed.
+Print Assumptions C16_plain_caller_valid.
 
 (* before commit 7b727b3 this failed: a plain caller's pre-block value landed in the next block's
    dict; the block owner (thread 0) and the plain caller (thread 1) then returned it *)
